@@ -164,6 +164,12 @@ func (cr *CheckRun) Note(format string, a ...any) {
 // the property of this run. `filter` selects obligations (nil = by Props tag).
 func (cr *CheckRun) VerifyFunc(e *FuncEnc, entry string, filter func(o *Obligation) bool, replay func(f *Failure)) {
 	e.Encode()
+	cr.VerifyEncoded(e, entry, filter, replay)
+}
+
+// VerifyEncoded files the obligations of an already built script (a function
+// encoding, or a lemma over contracts).
+func (cr *CheckRun) VerifyEncoded(e *FuncEnc, entry string, filter func(o *Obligation) bool, replay func(f *Failure)) {
 	timeout := 10
 	if cr.Tier == "thorough" {
 		timeout = 30
@@ -189,8 +195,12 @@ func (cr *CheckRun) VerifyFunc(e *FuncEnc, entry string, filter func(o *Obligati
 	}
 	all := e.Obls
 	e.Obls = mine
+	tv0 := time.Now()
 	r := e.Verify(cr.Scratch, timeout)
 	e.Obls = all
+	if os.Getenv("GOAGVC_DEBUG_TIME") != "" {
+		fmt.Printf("TIME %6.1fs %4d obls %s\n", time.Since(tv0).Seconds(), len(mine), e.Name)
+	}
 	cr.mu.Lock()
 	cr.Functions[e.Name] = true
 	for _, a := range r.Assumed {
